@@ -301,3 +301,10 @@ def attr_memos(ctx):
     from .common_cache import attr_memos as run
     n = run(ctx, 'keys', [['Signature']], 'Signature', 'the serialised signature (with / without the hash type byte) depends on which accessor ran first: the script carries a signature that fails BIP66 / hash-type parsing')
     ctx.floor(n, 1, 'attribute memos of Signature')
+
+
+@PROP.obligation('C13.fixed-width')
+def fixed_width_mods(ctx):
+    """Every int.to_bytes of keys.py (r, s, secrets, nonces) uses a width that does not depend on the value."""
+    from .common_width import fixed_width_modules as run
+    run(ctx, ['keys'], 'r / s / k with leading zero bytes are serialised shorter: compact signatures and RFC6979 inputs change', 20)
